@@ -149,6 +149,10 @@ Definition http_resolve (h : http_result) : res answer :=
       end
   end.
 
+(* IssuerResolver as a registry entry: what the transport did is `h` *)
+Definition http_resolver (h : http_result) : resolver :=
+  fun _ => match http_resolve h with Ok a => Some a | _ => None end.
+
 Definition lookup_resolver (reg : registry) (ty : string) : option resolver :=
   assoc String.eqb ty reg.
 
